@@ -224,6 +224,73 @@ fn stage_frames(tier: Tier, st: &mut Stats) {
 }
 
 /// preface::accept and the noise layer fed raw bytes.
+
+/// RPC-level framing: the real `frame::mux_recv_proto` (what every RPC server / client reads a message
+/// with) on a sub-stream of two real `Mux` endpoints, fed by a peer that writes a length prefix from a
+/// boundary set followed by 0 / 1 / 3 / `len` body bytes, or only part of the prefix, and closes.
+fn stage_rpc_frames(tier: Tier, st: &mut Stats) {
+    let max = 1000usize;
+    let mut inputs: Vec<(String, Vec<u8>)> = vec![];
+    for len in [0u32, 1, 2, 999, 1000, 1001, 65535, 65536, 1 << 24, 1 << 28, u32::MAX] {
+        for body in [0usize, 1, 3, 1000, 1001, 2100] {
+            if tier == Tier::Quick && (body == 1 || body == 1001) {
+                continue;
+            }
+            let mut v = len.to_le_bytes().to_vec();
+            v.extend((0..body).map(|i| if i % 2 == 0 { 0x08 } else { 0x01 }));
+            inputs.push((format!("length field {len}, {body} body bytes, then the sub-stream is closed"), v));
+        }
+    }
+    for n in 0..4 {
+        inputs.push((format!("{n} bytes of the length field, then the sub-stream is closed"), vec![1u8; n]));
+    }
+    for (desc, input) in inputs {
+        let i2 = input.clone();
+        let ok = stage_case(st, "rpc_frame", format!("frame::mux_recv_proto(max_size={max}) on a mux sub-stream fed {desc}"), json!({"harness":"c10-rpc-frame","input_hex":hex(&input)}), max + (512 << 10), move || {
+            on_rt(|root, _idle, _clock| {
+                Box::pin(async move {
+                    let (pa, pb) = pipe::pair();
+                    let cfg = || nv::VMuxConfig { read_frame_size: 256, read_buffer_size: 1024, read_frame_count: 4, write_frame_size: 256 };
+                    let c0 = nv::VQueue::new(root, 1, limiter::Rate::INF);
+                    let a0 = nv::VQueue::new(root, 1, limiter::Rate::INF);
+                    let m1 = nv::VMux::new(cfg(), vec![], vec![(0, c0.clone())]);
+                    let m2 = nv::VMux::new(cfg(), vec![(0, a0.clone())], vec![]);
+                    let (c0, a0, i2) = (&c0, &a0, &i2);
+                    let r: Result<Result<usize, String>, ctx::Error> = scope::run!(root, |ctx, s| async move {
+                        s.spawn_bg(async move {
+                            let _ = m1.run(ctx, pa).await;
+                            Ok(())
+                        });
+                        s.spawn_bg(async move {
+                            let _ = m2.run(ctx, pb).await;
+                            Ok(())
+                        });
+                        s.spawn_bg(async move {
+                            let mut st = c0.open(ctx).await?;
+                            let _ = st.write_all(ctx, i2).await;
+                            let _ = st.flush(ctx).await;
+                            let _rh = st.close_write();
+                            // keep the read half until the scope ends
+                            ctx.canceled().await;
+                            Ok(())
+                        });
+                        let mut st = a0.open(ctx).await?;
+                        Ok(st.recv_ping_frame(ctx, max).await)
+                    })
+                    .await;
+                    match r {
+                        Ok(x) => x.map(|_| ()),
+                        Err(e) => Err(format!("{e:?}")),
+                    }
+                })
+            })
+        });
+        if !ok {
+            break;
+        }
+    }
+}
+
 fn stage_preface_noise(tier: Tier, st: &mut Stats) {
     let types = wiretypes::all(0, false);
     let enc = types.iter().find(|t| t.name == "preface::Encryption").unwrap().samples[0].clone();
@@ -730,6 +797,7 @@ pub fn run(args: &Args) -> Report {
                     st.viol.insert("mux_control_flood".into(), (format!("[mux_control_flood] {v}"), rp.clone()));
                 }
             }
+            "c10-rpc-frame" => stage_rpc_frames(args.tier, &mut st),
             _ => {
                 stage_frames(args.tier, &mut st);
                 stage_preface_noise(args.tier, &mut st);
@@ -755,6 +823,7 @@ pub fn run(args: &Args) -> Report {
     let mut stg = Stats::default();
     stage_frames(args.tier, &mut stg);
     stage_preface_noise(args.tier, &mut stg);
+    stage_rpc_frames(args.tier, &mut stg);
     let mux_items = stage_mux(args.tier, &mut stg);
     // a peer flooding control frames (OPEN / CLOSE) at a stream nobody serves: buffered frames stay
     // within read_frame_count (same driver as C14, default schedule)
